@@ -260,14 +260,18 @@ def g_forward_module(dim, mode, waveform, f1_region_excluded=True, canary=None):
     return obs, info
 
 
-def g_inverse_module(dim, mode, waveform, f1_region_excluded=True):
-    """DWT1DInverse / DWTInverse: real __init__ + forward over a pyramid of symbolic depth"""
+def g_inverse_module(dim, mode, waveform, f1_region_excluded=True, none_region=False):
+    """DWT1DInverse / DWTInverse: real __init__ + forward over a pyramid of symbolic depth.
+    An absent (None) level stands for zeros OF THE LEVEL'S OWN SHAPE - the shape the forward transform gives that level, which is the
+    running low-pass extent or one less on each axis ("a level of zeros on the signal's extent").  none_region=False: None levels whose
+    own extent equals the running low-pass (no sample to drop); none_region=True: the complementary region, where pywt.waverec drops the
+    last low-pass sample first (known finding F13: the code cannot, an absent level carries no shape)."""
     modkey = 'dwt.transform1d' if dim == 1 else 'dwt.transform2d'
     cls = 'DWT1DInverse' if dim == 1 else 'DWTInverse'
     callees = MOD_CALLEES_1D if dim == 1 else MOD_CALLEES_2D
     base = [Bn >= 1, C >= 1, N >= 1, H >= 1, W >= 1, J >= 1, Lc2 >= 1, Lr2 >= 1]
     mv = [Bn, C, N, H, W, J, Lc2, Lr2]
-    oid = '%s[%s,%s]' % (cls, mode, waveform)
+    oid = '%s[%s,%s%s]' % (cls, mode, waveform, ',region=absent-level-needs-unpad' if none_region else '')
     per = mode in ('per', 'periodization')
     Ls = (Lc,) if dim == 1 else ((Lc, Lr) if waveform == 'tuple4' else (Lc, Lc))
 
@@ -330,9 +334,21 @@ def g_inverse_module(dim, mode, waveform, f1_region_excluded=True):
                 _, R, D, newT = rec
                 # pywt.waverec: drop the last lowpass sample when it is one longer than the detail
                 if D is None:
-                    Rc = R
-                    Dz = t_zeros(R.shape if dim == 1 else (R.shape[0], R.shape[1], 3, R.shape[2], R.shape[3]),
+                    # the absent level's own spatial extents: the running low-pass extent, or one less (forward-compatible pyramid)
+                    dd = [fresh_int('dn') for _ in range(dim)]
+                    hyp = [z3.Or(a_ == I(b_), a_ == I(b_) - 1) for a_, b_ in zip(dd, R.shape[-dim:])] + [a_ >= 1 for a_ in dd]
+                    same = z3.And(*[a_ == I(b_) for a_, b_ in zip(dd, R.shape[-dim:])])
+                    hyp.append(z3.Not(same) if none_region else same)
+                    for L_, a_ in zip(Ls, dd):
+                        hyp.append((2 * a_ >= L_ - 2) if per else (2 * a_ - L_ + 2 >= 1))
+                    key = [slice(None), slice(None)] + [slice(0, a_) for a_ in dd]
+                    c.pc.extend(hyp)
+                    c.solver.add(*hyp)
+                    Rc = tget(R, tuple(key))
+                    Dz = t_zeros((R.shape[0], R.shape[1]) + tuple(dd) if dim == 1 else (R.shape[0], R.shape[1], 3) + tuple(dd),
                                  dtype=prims.DT_IN, kind='torch')
+                elif none_region:
+                    continue                      # the region group only looks at absent levels
                 else:
                     key = [slice(None), slice(None)] + [slice(0, D.shape[-dim + q]) for q in range(dim)]
                     Rc = tget(R, tuple(key))
@@ -342,7 +358,7 @@ def g_inverse_module(dim, mode, waveform, f1_region_excluded=True):
                 else:
                     want = CD.spec_inv_level_2d(Rc, Dz, (wc.a['rec_lo'], wc.a['rec_hi']),
                                                 (wr.a['rec_lo'], wr.a['rec_hi']), m_)
-                tag = 'None-level' if D is None else 'level'
+                tag = ('None-level,own-extent-one-less-than-running-lowpass' if none_region else 'None-level,own-extent==running-lowpass') if D is None else 'level'
                 obs += verify.value_equal(pid + '/INV-step[%s]' % tag, 'INV-step', newT, want, c.pc, mv)
                 got_dt = newT.meta.get('dtype')
                 obs.append(Ob(pid + '/INV-step[%s]/dtype' % tag, 'DTYPE',
